@@ -41,6 +41,7 @@ type CmdEnv struct {
 	DateFormat    string // config date_format
 	TimeConv      string // config time_convention
 	NumCpus       int
+	OnTick        func(k int) `json:"-"` // environment event before refresh k of a repeating command
 }
 
 func (e CmdEnv) Clock() gotime.Time {
@@ -115,6 +116,7 @@ func RunOp(home, path string, o Op, env CmdEnv) clidrv.Result {
 	for _, t := range o.Ticks {
 		opts.TickTimes = append(opts.TickTimes, env.Clock().Add(gotime.Duration(t)*gotime.Second))
 	}
+	opts.OnTick = env.OnTick
 	return clidrv.Run(home, opts, o.Args(path)...)
 }
 
